@@ -138,8 +138,12 @@ Proof.
   rewrite N1, N2, E1, E2, !moved_name_app in E. apply app_inv_head in E. congruence.
 Qed.
 
-Lemma mk_usize x : pax_get K_usize (h_pax (mk x)) = pax_get K_usize (r_pax x).
-Proof. unfold C01Ops2.mk. rewrite mov_hdr_pax. paxs. reflexivity. Qed.
+Lemma mk_usize x : pax_get K_usize (h_pax (mk x)) =
+  match pax_get K_usize (r_pax x) with
+  | Some v => Some v
+  | None => if 0 <? r_size x then Some (decimal (r_size x)) else None
+  end.
+Proof. unfold C01Ops2.mk. rewrite mov_hdr_pax. paxs. rewrite keep_size_usize. reflexivity. Qed.
 
 Lemma mk_rc x : pax_get K_replaces_content (h_pax (mk x)) = None.
 Proof. unfold C01Ops2.mk. rewrite mov_hdr_pax. paxs. reflexivity. Qed.
@@ -147,7 +151,9 @@ Proof. unfold C01Ops2.mk. rewrite mov_hdr_pax. paxs. reflexivity. Qed.
 Lemma mk_usz x : size_ok x -> usz (mk x) = Some (r_size x).
 Proof.
   intro H. rewrite usz_hsize. unfold hsize. rewrite mk_usize. unfold size_ok in H.
-  destruct (pax_get K_usize (r_pax x)) as [v|]; [exact H|]. rewrite H. reflexivity.
+  destruct (pax_get K_usize (r_pax x)) as [v|]; [exact H|].
+  destruct (0 <? r_size x) eqn:Ez; [apply undecimal_decimal_eq; exact H|].
+  change (h_size (mk x)) with 0. f_equal. lia.
 Qed.
 
 Definition Qmv (target : str -> option node) (hs : list hdr) (lv : pstate) : Prop :=
